@@ -240,7 +240,7 @@ CLAIMED["C04"] = (
     "accounted by errors, withheld keys and stream tails covered by an id completed with errors; a plain "
     "result equals the reference.",
     "Key order is not compared; the reference executor R5 is my reading of the specification; open known "
-    "finding F20 is excluded by predicate.",
+    "finding F20 is excluded by predicate; F38 (gap after a cancelled stream item) was repaired.",
     "DESIGN.md 3/C04",
 )
 CLAIMED["C05"] = (
@@ -251,8 +251,9 @@ CLAIMED["C05"] = (
     "pending id and an existing object or list of the data assembled so far, every announced id is completed "
     "exactly once, a necessarily nested fragment is not announced while its announced enclosing fragment stays "
     "pending, hasNext is true except on the last payload and nothing follows it, and the stream terminates.",
-    "Static nesting is taken from the generated document (every-route enclosure); open known findings F11 and "
-    "F20 are excluded by predicate; the direct drive enumerates graphs with <= 2 (3) delivery groups, <= 2 tasks, "
+    "Static nesting is taken from the generated document (every-route enclosure, exact relative key paths); F11 "
+    "was repaired, the open known finding F20 is excluded by predicate (target missing, present at the end, an "
+    "enclosing fragment was pruned); the direct drive enumerates graphs with <= 2 (3) delivery groups, <= 2 tasks, "
     "<= 1 (2) streams and caps the completion orders per graph (the evidence histogram counts the graphs whose "
     "orders were enumerated completely).",
     "DESIGN.md 3/C05",
@@ -268,8 +269,8 @@ CLAIMED["C06"] = (
     "not before resolvers and sources had settled, and nothing reached the loop's exception handler.",
     "Stop points are chosen by the schedule (aclose right after payload k, abort at a quiescent point); harness "
     "resolvers honour cancellation; source records are read before the private loop is closed, so a source that is "
-    "only finalised by loop.shutdown_asyncgens() counts as not closed. No open finding: the fifteen defects found "
-    "(F10, F12, F13, F21-F24, F26-F34) are repaired in the repository and kept as replays.",
+    "only finalised by loop.shutdown_asyncgens() counts as not closed. No open finding: the defects found "
+    "(F10, F12, F13, F21-F24, F26-F37, F39) are repaired in the repository and kept as replays.",
     "DESIGN.md 3/C06",
 )
 PENDING_REASON = (
